@@ -211,6 +211,23 @@ func c15KnownCases(r *vrt.R, run func(c c15Case)) {
 	}
 }
 
+// c15AllVersionCases: "over supported versions" - every supported protocol the scripted peers can speak,
+// one differing threshold pair, one packet per direction in both delivery orders, sizes around both thresholds.
+func c15AllVersionCases(r *vrt.R, run func(c c15Case)) {
+	for _, v := range version.Versions {
+		if !version.Protocol(v.Protocol).Supported() || v.Protocol.Lower(version.Minecraft_1_8) {
+			continue // 1.7.x framing of the scripted peers is not implemented (spec assumption)
+		}
+		for _, cs := range []int{0, 63, 255, 256} {
+			for _, ss := range []int{0, 63, 255, 256} {
+				for _, ord := range interleavings(1, 1) {
+					run(c15Case{Protocol: int(v.Protocol), ClientThreshold: 256, BackendThreshold: 64, C2S: []int{cs}, S2C: []int{ss}, Order: ord})
+				}
+			}
+		}
+	}
+}
+
 func c15KindLabel(c c15Case) string {
 	for _, k := range append(append([]string{}, c.S2CKinds...), c.C2SKinds...) {
 		if k != "" {
